@@ -200,168 +200,98 @@ pub fn __as_f64<T: ToF64>(x: T) -> (r: f64) ensures r == x.to_f64_spec() { x.__t
 // R13: identity on f64 (see rule R13 of the extractor)
 pub fn __idf(x: f64) -> (r: f64) ensures r == x { x }
 
-// ---- extracted from src/solve/data.rs: struct RegretParams ----
-#[derive(Clone, Copy)]
-pub struct RegretParams {
-    /// The discount factor for positive cumulative regret or `α`.
-    ///
-    /// Positive cumulative regrets are discounted by `tᵅ/(tᵅ + 1)` every iteration `t`. Setting
-    /// alpha closer to infinity implies no discounting, while setting it at negative infinity
-    /// means imediate forgetting. Note that any non-positive value is probably not desired.
-    pub pos_regret: f64,
-    /// The discount factor for negative cumulative regret or `β`
-    ///
-    /// Negative cumulative regrets are discounted by `tᵝ/(tᵝ + 1)` every iteration `t`. The
-    /// values are the same as for positive regrets. Setting this to a non-positive value will
-    /// prevent the cumulative regret of negative regret actions from approaching negative
-    /// infinity, which can make pruning negative regret actions impossible.
-    pub neg_regret: f64,
-    /// The average strategy discount factor `γ`
-    ///
-    /// The average strategy is discounted by `(ᵗ⁄ₜ₊₁)ᵞ` every iteration t, which is equivalent to
-    /// weighting each strategy update by `tᵞ`.
-    pub strat: f64,
-    /// The scale for picking a strategy when all regrets are negative
-    ///
-    /// If all actions have negative regret, the chosen strategy can be anything. We use the
-    /// softmax of the regrets times this weight. Setting it to infinity is the same as always
-    /// playing the strategy with the highest regret. Zero is equivalent to playing each action
-    /// uniformly. No other values are recommend, but interpolate between those extremes.
-    pub no_positive: f64,
+// ---- prelude fragment: slice_state.rs ----
+// R6: abstraction of the sliced-away iteration body.  The solver state (cumulative regrets,
+// cumulative strategies, cached draws) is an opaque ghost value; one execution of the abstracted
+// statements of iteration `it` maps state s to step_state(s, it) -- an uninterpreted function, so
+// what is proved holds for EVERY deterministic body (for the sampled methods: under fixed draws,
+// which is the premise of the property).  regs_of(s) are the two per-player bounds the body reports.
+pub struct St { pub g: Ghost<int> }
+pub uninterp spec fn step_state(s: int, it: u64) -> int;
+pub uninterp spec fn regs_of(s: int) -> (f64, f64);
+pub open spec fn state_after(s0: int, k: nat) -> int decreases k {
+    if k == 0 { s0 } else { step_state(state_after(s0, (k - 1) as nat), k as u64) }
 }
+// "the total regret bound after this iteration is strictly below r"
+pub open spec fn below(s: int, r: f64) -> bool { flt(fmaxf(regs_of(s).0, regs_of(s).1), r) }
+#[verifier::external_body]
+pub fn __init_state() -> (st: St) { unimplemented!() }
+// one execution of the abstracted statements; writes the bounds into `regs`
+#[verifier::external_body]
+pub fn __abs_iteration(st: &mut St, it: u64, regs: &mut [f64; 2])
+    ensures final(st).g@ == step_state(old(st).g@, it),
+            (final(regs)[0], final(regs)[1]) == regs_of(final(st).g@),
+{ unimplemented!() }
+pub uninterp spec fn strats_of(s: int) -> [Box<[f64]>; 2];
+#[verifier::external_body]
+pub fn __abs_final_strats(st: &St) -> (r: [Box<[f64]>; 2])
+    ensures r == strats_of(st.g@),
+{ unimplemented!() }
+// the (arbitrary) initial solver state
+pub uninterp spec fn __s0() -> int;
 
-// R5: the four update helpers of RegretParams seen from their callers: each is a PURE function of its
-// arguments with a frame (regret_match and cum_regret do not modify the regrets).  These contracts
-// are discharged per helper by Kani harnesses on the real bodies (c08_regret_match_*,
-// c08_discount_cum_regret, c08_discount_average_strat, c02_cum_regret_formula: formula + frame,
-// bounded to slices of length <= 3), so they are cited at the bounded level, assumed beyond it.
-pub uninterp spec fn rm_spec(p: RegretParams, cum_reg: Seq<f64>) -> Seq<f64>;
-pub uninterp spec fn dcr_spec(p: RegretParams, it: u64, cum_reg: Seq<f64>) -> Seq<f64>;
-pub uninterp spec fn das_spec(p: RegretParams, it: u64, avg: Seq<f64>) -> Seq<f64>;
-pub uninterp spec fn cr_spec(p: RegretParams, it: u64, cum_reg: Seq<f64>) -> f64;
-impl RegretParams {
-    #[verifier::external_body]
-    pub fn regret_match(&self, cum_reg: &mut [f64], strat: &mut [f64])
-        ensures final(strat)@ == rm_spec(*self, old(cum_reg)@), final(cum_reg)@ == old(cum_reg)@,
-    { unimplemented!() }
-    #[verifier::external_body]
-    pub fn discount_cum_regret(&self, it: u64, cum_reg: &mut [f64])
-        ensures final(cum_reg)@ == dcr_spec(*self, it, old(cum_reg)@),
-    { unimplemented!() }
-    #[verifier::external_body]
-    pub fn discount_average_strat(&self, it: u64, avg_strat: &mut [f64])
-        ensures final(avg_strat)@ == das_spec(*self, it, old(avg_strat)@),
-    { unimplemented!() }
-    #[verifier::external_body]
-    pub fn cum_regret(&self, it: u64, cum_reg: &mut [f64]) -> (r: f64)
-        ensures r == cr_spec(*self, it, old(cum_reg)@), final(cum_reg)@ == old(cum_reg)@,
-    { unimplemented!() }
-}
+pub trait ChanceRecurse { }
+#[verifier::external_body] #[verifier::reject_recursive_types(T)] pub struct RefCell<T> { _p: core::marker::PhantomData<T> }
+#[verifier::external_body] pub struct RegretInfoset { }
+#[verifier::external_body] pub struct RegretParams { }
+#[verifier::external_body] pub struct Node { }
 
-// ---- extracted from src/solve/data.rs: struct RegretInfoset ----
-pub struct RegretInfoset {
-    pub cum_regret: Box<[f64]>,
-    pub cum_strat: Box<[f64]>,
-    pub strat: Box<[f64]>,
-}
+// ---- extracted from src/solve/data.rs: type SolveInfo ----
+pub type SolveInfo = ([f64; 2], [Box<[f64]>; 2]);
 
-pub trait PlayerRecurse {
-    fn update_cum_strat(&mut self, prob: f64);
-    fn advance(&mut self, it: u64, params: &RegretParams) -> f64;
-}
-pub struct Player { }
-pub struct Node { }
-pub trait ActiveInfo {
-    // callers pass the loop variable of `for it in 1..=max_iter`
-    fn advance<const FIRST: bool>(&mut self, it: u64, params: &RegretParams) -> f64
-        requires it >= 1;
-}
-
-// ---- extracted from src/solve/vanilla.rs: impl PlayerRecurse for RegretInfoset ----
-impl PlayerRecurse for RegretInfoset {
-fn advance(&mut self, it: u64, params: &RegretParams) -> (r: f64) 
+// ---- extracted from src/solve/vanilla.rs: fn solve_generic_single ----
+pub fn solve_generic_single(
+    start: &Node,
+    mut chance_infosets: Box<[impl ChanceRecurse]>,
+    mut player_infosets: [Box<[RefCell<RegretInfoset>]>; 2],
+    iter: u64,
+    max_reg: f64,
+    params: &RegretParams,
+) -> (out: SolveInfo) 
     ensures
-        // textbook order: the next strategy is matched on the regrets BEFORE discounting ...
-        final(self).strat@ == rm_spec(*params, old(self).cum_regret@), // @ob C08.V.advance.match_before_discount
-        // ... then regrets and average strategy are discounted with the caller's iteration number ...
-        final(self).cum_regret@ == dcr_spec(*params, it, old(self).cum_regret@), // @ob C08.V.advance.discount_regrets
-        final(self).cum_strat@ == das_spec(*params, it, old(self).cum_strat@), // @ob C08.V.advance.discount_average
-        // ... and the reported bound is that of the regrets AFTER discounting, same iteration number
-        r == cr_spec(*params, it, final(self).cum_regret@), // @ob C02.V.advance.reports_bound
+        // with k the number of iterations executed and S_j the state after j iterations:
+        exists|k: nat| k <= iter   // the budget is never exceeded
+            && (forall|j: nat| 1 <= j < k ==> !below(state_after(__s0(), j), max_reg))   // no earlier iteration was below r
+            && (k < iter ==> k >= 1 && below(state_after(__s0(), k), max_reg))            // stopped early only because below r
+            && (k == 0 ==> out.0[0] == finf() && out.0[1] == finf())
+            && (k > 0 ==> (out.0[0], out.0[1]) == regs_of(state_after(__s0(), k)))        // bounds of iteration k
+            && out.1 == strats_of(state_after(__s0(), k)), // @ob C09.V.first_below.returns_state_k
 {
-        params.regret_match(&mut *self.cum_regret, &mut self.strat);
-        params.discount_cum_regret(it, &mut *self.cum_regret);
-        params.discount_average_strat(it, &mut self.cum_strat);
-        params.cum_regret(it, &mut *self.cum_regret)
-    }
-}
+broadcast use fl;
+proof { ax_obeys(); }
+let mut __st = __init_state();
+proof { assume(__st.g@ == __s0()); }
+let ghost s0 = __st.g@;
+let ghost mut k: nat = 0;
 
-// R5: std::sync::Mutex as far as `advance` uses it: get_mut() on an exclusively borrowed mutex
-// returns the protected value (lock poisoning -- the Err case -- is not modelled: assumed Ok)
-#[derive(Debug)]
-pub struct PoisonError { }
-pub struct Mutex<T> { pub inner: T }
-impl<T> Mutex<T> {
-    #[verifier::external_body]
-    pub fn get_mut(&mut self) -> (r: Result<&mut T, PoisonError>)
-        ensures r is Ok, *(r->Ok_0) == old(self).inner, final(self).inner == *final(r->Ok_0),
-    { unimplemented!() }
-}
-pub trait MutexPlayerRecurse {
-    fn advance(&mut self, it: u64, params: &RegretParams) -> f64;
-}
-
-// ---- extracted from src/solve/vanilla.rs: struct MutexRegretInfoset ----
-pub struct MutexRegretInfoset {
-    pub cum_regret: Box<[f64]>,
-    pub cum_strat: Mutex<Box<[f64]>>,
-    pub strat: Box<[f64]>,
-}
-
-// ---- extracted from src/solve/vanilla.rs: impl MutexPlayerRecurse for MutexRegretInfoset ----
-impl MutexPlayerRecurse for MutexRegretInfoset {
-fn advance(&mut self, it: u64, params: &RegretParams) -> (r: f64) 
-    ensures
-        final(self).strat@ == rm_spec(*params, old(self).cum_regret@), // @ob C08.V.advance.match_before_discount
-        final(self).cum_regret@ == dcr_spec(*params, it, old(self).cum_regret@), // @ob C08.V.advance.discount_regrets
-        final(self).cum_strat.inner@ == das_spec(*params, it, old(self).cum_strat.inner@), // @ob C08.V.advance.discount_average
-        r == cr_spec(*params, it, final(self).cum_regret@), // @ob C02.V.advance.reports_bound
+    let mut regs = [__inf(); 2];
+    for it in r: 1..=iter 
+invariant_except_break
+    k == r.index@,
+    forall|j: nat| 1 <= j <= k ==> !below(state_after(s0, j), max_reg),
+invariant
+    __st.g@ == state_after(s0, k),
+    k <= iter,
+    k == 0 ==> regs[0] == finf() && regs[1] == finf(),
+    k > 0 ==> (regs[0], regs[1]) == regs_of(__st.g@),
+ensures
+    forall|j: nat| 1 <= j < k ==> !below(state_after(s0, j), max_reg), // @ob C09.V.first_below.no_earlier_stop
+    k < iter ==> k >= 1 && below(state_after(s0, k), max_reg), // @ob C09.V.first_below.stops_only_below
 {
-        params.regret_match(&mut *self.cum_regret, &mut self.strat);
-        params.discount_cum_regret(it, &mut *self.cum_regret);
-        params.discount_average_strat(it, self.cum_strat.get_mut().unwrap());
-        params.cum_regret(it, &mut *self.cum_regret)
-    }
-}
+broadcast use fl;
+proof { ax_obeys(); k = k + 1; }
 
-// ---- extracted from src/solve/external.rs: struct CachedInfoset ----
-pub struct CachedInfoset {
-    pub reg: RegretInfoset,
-    pub cached: usize,
-}
-
-// ---- extracted from src/solve/external.rs: impl ActiveInfo for CachedInfoset ----
-impl ActiveInfo for CachedInfoset {
-fn advance<const FIRST: bool>(&mut self, it: u64, params: &RegretParams) -> (r: f64) 
-    ensures
-        // textbook order: the next strategy is matched on the regrets BEFORE discounting ...
-        final(self).reg.strat@ == rm_spec(*params, old(self).reg.cum_regret@), // @ob C08.V.advance.match_before_discount
-        // ... then regrets and average strategy are discounted with the caller's iteration number ...
-        final(self).reg.cum_regret@ == dcr_spec(*params, it, old(self).reg.cum_regret@), // @ob C08.V.advance.discount_regrets
-        final(self).reg.cum_strat@ == das_spec(*params, (if FIRST { (it - 1) as u64 } else { it }), old(self).reg.cum_strat@), // @ob C08.V.advance.discount_average
-        // ... and the reported bound is that of the regrets AFTER discounting, same iteration number
-        r == cr_spec(*params, it, final(self).reg.cum_regret@), // @ob C02.V.advance.reports_bound
-        final(self).cached == 0, // @ob C10.V.cached_infoset.advance_resets_draw
-{
-        self.cached = 0;
-        params.regret_match(&mut *self.reg.cum_regret, &mut self.reg.strat);
-        params.discount_cum_regret(it, &mut *self.reg.cum_regret);
-        // NOTE since we alternate updates, when do the first discounting of player one's average
-        // strat, they'll actually have nothing acumulated, so we actualy want to update on the
-        // second round
-        params.discount_average_strat(if FIRST { it - 1 } else { it }, &mut self.reg.cum_strat);
-        params.cum_regret(it, &mut *self.reg.cum_regret)
+        
+        
+        
+        __abs_iteration(&mut __st, it, &mut regs);
+        let reg_one = regs[0]; let reg_two = regs[1];
+        if f64::max(reg_one, reg_two) < max_reg {
+            break;
+        }
     }
+    let strats = __abs_final_strats(&__st);
+    (regs, strats)
 }
 
 
